@@ -8,7 +8,8 @@
      ncomps p       the components of Clean p;  twords p  = the same, with ["."] for "."
      strip_common   drops the longest common prefix of two component lists
      op / pchunk    parsed pattern: literal byte | '?' | class(negated, ranges) ; chunk = (starred, ops)
-     pat_parses     cuts a pattern into chunks with the model's tokenizer scanChunk and parses each chunk
+     pat_parses     cuts a pattern into chunks with the model's tokenizer scanChunk and parses each chunk;
+                    pattern_grammar: the same set of parses generated without the tokenizer
      pm / gm        declarative matcher ('*' = any separator-free bytes) / the same with Go's leftmost commitment *)
 From Avfs Require Import Base PathModel PathMatch PathSpec PathProofs PathCleanProofs PathIterProofs
   PathDirBaseProofs PathRelProofs PathMatchProofs.
@@ -167,6 +168,21 @@ Proof. exact gmatch_gm. Qed.
 Theorem C13_match_true_iff : forall cr pattern name,
   path_match Linux cr pattern name = MVal true <-> exists cks, pat_parses pattern cks /\ gm cks name.
 Proof. exact path_match_true_iff. Qed.
+
+(* the same without the tokenizer: pattern_grammar generates a pattern as
+   '*'^k chunk rest, the chunk (chunk_ns) being a sequence of '?', '\x', bytes other
+   than '[' '?' '\' '*', and classes; rest empty or starting with '*'; an empty
+   chunk only at the very end.  It cuts exactly as scanChunk does. *)
+Theorem C13_pattern_grammar_iff : forall pattern cks, pat_parses pattern cks <-> pattern_grammar pattern cks.
+Proof. exact pat_parses_iff_grammar. Qed.
+
+Theorem C13_match_true_grammar : forall cr pattern name,
+  path_match Linux cr pattern name = MVal true <-> exists cks, pattern_grammar pattern cks /\ gm cks name.
+Proof. exact path_match_true_grammar. Qed.
+
+Theorem C13_match_bad_grammar : forall pattern name,
+  path_match Linux true pattern name = MBad <-> ~ exists cks, pattern_grammar pattern cks.
+Proof. exact path_match_bad_grammar. Qed.
 
 (* soundness w.r.t. the purely declarative matcher *)
 Theorem C13_gm_pm : forall cks name, gm cks name -> pm cks name.
